@@ -22,7 +22,7 @@
                                             the constructors of [step] with that one extra premise); no other hypothesis
      - [reachable_listing_under_guard]    : the same under the finer guard "not (provider = receiver = a dummy)". *)
 From Coq Require Import Sorted.
-From RS Require Import Base BaseFacts Network Tour Transition Schedule SchedInv SchedStruct SchedCostsFacts.
+From RS Require Import SchedPeel Base BaseFacts Network Tour Transition Schedule SchedInv SchedStruct SchedCostsFacts.
 Local Open Scope Z_scope.
 
 (** * vid_cmp is a strict total order *)
@@ -372,7 +372,7 @@ Lemma update_tours_L b s forms usage uns p ntp r ntr moved
     = Ok (vehicles1, tours2, forms2, usage2, dummies2, ids1, dids1, uns2, costs2) ->
   VPart vehicles1 tours2 ids1 /\ DPart b (s_counter s) dummies2 dids1.
 Proof.
-  intros I [V D] Gd H. unfold update_tours in H.
+  intros I [V D] Gd H. apply update_tours_peel in H. unfold update_tours_prefix in H.
   monp H. mon H. monp H. mon H. monp H. inversion H; subst; clear H.
   assert (Q : VPart vehicles1 l3 ids1 /\ DPart b (s_counter s) l1 dids1 /\
               (is_dummy s r = true -> b = true -> vget r l1 <> None)).
